@@ -39,9 +39,9 @@ m = dict(
     setup_cmd="./check --setup",
     hooks=dict(
         guard="kani",
-        enable="no source hooks: every check rsyncs /repo's working tree to a scratch overlay and appends `#[cfg(kani)] mod verif_kani {..}` harness modules there; built with `cargo kani -p libwild -Z stubbing`",
+        enable="`--cfg kani` is set only by `cargo kani`; every check rsyncs /repo's working tree to a scratch overlay, appends `#[cfg(kani)] mod verif_kani {..}` harness modules there and builds with `cargo kani -p <crate> -Z stubbing`. The two hook commits put `#[cfg(not(kani))]` on two tracing macro statements in libwild/src/elf_writer.rs (kani-compiler 0.68 panics on tracing's macros) and declare cfg(kani) to rustc's check-cfg in the workspace Cargo.toml",
         baseline_off_cmd="cd /repo && cargo test --workspace --no-fail-fast --offline",
-        source_commits=[],
+        source_commits=["3df80ae", "da5ccb8"],
         add_only=True,
     ),
     engines=[
